@@ -44,6 +44,7 @@ type E2Params struct {
 	Resend     bool     `json:"resend"`      // offer re-sending a client's previous request verbatim (C06)
 	Types      []string `json:"types"`       // per-client datatype type (client i uses Types[i % len]); default: Type for all
 	SyncFaults []string `json:"sync_faults"` // transport faults offered on SDK Sync(): drop | dup (bounded by max_faults)
+	Foreign    bool     `json:"foreign"`     // offer foreign requests and ResetCollection (C17)
 }
 
 type e2dt struct {
@@ -70,15 +71,18 @@ type heldResp struct {
 }
 
 type e2Machine struct {
-	held    map[int][]heldResp
-	nfault  int
-	p       E2Params
-	oracles map[string]bool
-	sys     *sysx.System
-	cls     []*e2client
-	last    string
-	npub    int
-	fatal   *pt.Violation
+	nreset   int
+	nforeign int
+	dead     map[int]bool // clients whose collection was reset (they would have to reconnect)
+	held     map[int][]heldResp
+	nfault   int
+	p        E2Params
+	oracles  map[string]bool
+	sys      *sysx.System
+	cls      []*e2client
+	last     string
+	npub     int
+	fatal    *pt.Violation
 }
 
 func init() {
@@ -105,7 +109,7 @@ func newE2(params json.RawMessage) *e2Machine {
 		p.Type = "counter"
 	}
 	resetUIDs()
-	m := &e2Machine{p: p, oracles: map[string]bool{}, held: map[int][]heldResp{}}
+	m := &e2Machine{p: p, oracles: map[string]bool{}, held: map[int][]heldResp{}, dead: map[int]bool{}}
 	for _, o := range p.Oracles {
 		m.oracles[o] = true
 	}
@@ -212,7 +216,33 @@ func (m *e2Machine) Enabled() []pt.Action {
 		return nil
 	}
 	var as []pt.Action
+	if m.p.Foreign {
+		if m.nreset < 1 {
+			for _, coll := range m.p.Colls {
+				as = append(as, pt.Action{Op: "reset", R: 0, T: coll})
+			}
+		}
+		if m.nforeign < 2 {
+			for _, c := range m.cls {
+				if m.dead[c.idx] {
+					continue
+				}
+				for _, k := range m.p.Keys {
+					if _, ok := c.dts[k]; !ok {
+						continue
+					}
+					as = append(as, pt.Action{Op: "foreign", R: c.idx, T: k, K: "collection"})
+					for _, bits := range []int{0, 1, 2, 3} {
+						as = append(as, pt.Action{Op: "foreign", R: c.idx, T: k, K: "duid", P: bits})
+					}
+				}
+			}
+		}
+	}
 	for _, c := range m.cls {
+		if m.dead[c.idx] {
+			continue
+		}
 		w := &World{P: WParams{Type: c.typ}, typ: typeOf(c.typ)}
 		for _, k := range m.p.Keys {
 			d, ok := c.dts[k]
@@ -350,7 +380,56 @@ func (m *e2Machine) Apply(a pt.Action) (v *pt.Violation) {
 	c := m.cls[a.R]
 	pubsBefore := len(m.sys.Broker.Snapshot())
 	opsBefore := m.storedOps()
+	if m.oracles["isolate"] {
+		actor := c.coll
+		if a.Op == "reset" {
+			actor = a.T
+		}
+		before := map[string]string{}
+		for _, coll := range m.p.Colls {
+			if coll != actor {
+				before[coll] = m.projection(coll)
+			}
+		}
+		defer func() {
+			if v != nil {
+				return
+			}
+			for coll, b := range before {
+				if after := m.projection(coll); after != b {
+					v = viol("C17:foreign-collection-changed:"+a.Op, "%s by a client of collection %q changed what is stored for collection %q; first difference at %s", a, actor, coll, firstDiff(after, b))
+					return
+				}
+			}
+			v = m.checkCollections()
+		}()
+	}
 	switch a.Op {
+	case "reset":
+		var err error
+		if !callWithDeadline(func() {
+			_, err = m.sys.Svc().ResetCollection(gocontext.Background(), &model.CollectionMessage{Collection: a.T})
+		}) {
+			exitWith(viol("C16:request-never-answered:reset", "ResetCollection(%s) never returned", a.T))
+		}
+		m.drain()
+		m.nreset++
+		m.last = fmt.Sprintf("reset err=%v", err != nil)
+		for _, cl := range m.cls {
+			if cl.coll == a.T {
+				m.dead[cl.idx] = true
+			}
+		}
+		if err != nil {
+			return viol("C17:reset-failed", "ResetCollection(%s): %v", a.T, err)
+		}
+		if left := m.projection(a.T); strings.TrimSpace(stripHeaders(left)) != "" {
+			return viol("C17:reset-left-documents", "after ResetCollection(%s) these documents of the collection remain:\n%s", a.T, clip(left, 1500))
+		}
+		return nil
+	case "foreign":
+		m.nforeign++
+		return m.foreignRequest(c, a)
 	case "open":
 		d := m.openDatatype(c, a.T, a.K, c.typ)
 		if d == nil {
@@ -617,6 +696,9 @@ func (m *e2Machine) checkLog() *pt.Violation {
 	}
 	// every operation a client considers acknowledged is stored exactly as issued
 	for _, c := range m.cls {
+		if m.dead[c.idx] {
+			continue
+		}
 		for _, d := range c.dts {
 			p := d.rep.dt.CreatePushPullPack()
 			acked := p.CheckPoint.Cseq - uint64(len(p.Operations))
@@ -737,7 +819,7 @@ func (m *e2Machine) Close() *pt.Violation {
 	}
 	for round := 0; round < 3; round++ {
 		for _, c := range m.cls {
-			if len(c.dts) == 0 {
+			if len(c.dts) == 0 || m.dead[c.idx] {
 				continue
 			}
 			time.Sleep(time.Millisecond)
@@ -769,7 +851,7 @@ func (m *e2Machine) Close() *pt.Violation {
 			have := false
 			for _, c := range m.cls {
 				d, ok := c.dts[k]
-				if !ok || c.coll != coll || d.rep.dt.GetState() != model.StateOfDatatype_SUBSCRIBED {
+				if !ok || c.coll != coll || d.rep.dt.GetState() != model.StateOfDatatype_SUBSCRIBED || m.dead[c.idx] {
 					continue
 				}
 				if n := len(d.rep.dt.CreatePushPullPack().Operations); n > 0 {
@@ -978,6 +1060,122 @@ func (m *e2Machine) checkEntries(c *e2client, preds []entryPred, dumpBefore stri
 				return viol("C13:first-state-differs-from-log-position:"+c.typ, "client %d key %s subscribed at log position %d:\n client: %s\n log[1..%d]: %s", c.idx, p.key, pack.CheckPoint.Sseq, a, pack.CheckPoint.Sseq, b)
 			}
 		}
+	}
+	return nil
+}
+
+// ---------------------------------------------------------------------------------------------
+// C17: isolation of collections
+// ---------------------------------------------------------------------------------------------
+
+func stripHeaders(s string) string {
+	var out []string
+	for _, l := range strings.Split(s, "\n") {
+		if !strings.HasPrefix(l, "## ") {
+			out = append(out, l)
+		}
+	}
+	return strings.Join(out, "\n")
+}
+
+// projection renders everything the database holds for one collection: datatype, operation,
+// snapshot and client documents carrying its number, and its user-visible collection.
+func (m *e2Machine) projection(coll string) string {
+	var num int32 = -1
+	for _, d := range m.sys.DB.Docs(schema.CollectionNameCollections) {
+		if n, _ := getS(d, "_id"); n == coll {
+			if x, ok := getV(d, "num").(int32); ok {
+				num = x
+			}
+		}
+	}
+	var sb strings.Builder
+	if num >= 0 {
+		f := bson.D{{Key: "colNum", Value: num}}
+		for _, cn := range []string{schema.CollectionNameDatatypes, schema.CollectionNameOperations, schema.CollectionNameSnapshot, schema.CollectionNameClients} {
+			fmt.Fprintf(&sb, "## %s\n%s\n", cn, strings.Join(m.sys.DB.DumpColl(cn, f), "\n"))
+		}
+	}
+	fmt.Fprintf(&sb, "## user:%s\n%s\n", coll, strings.Join(m.sys.DB.DumpColl(coll, nil), "\n"))
+	return sb.String()
+}
+
+// checkCollections: collection numbers are pairwise distinct and every document's number names a collection.
+func (m *e2Machine) checkCollections() *pt.Violation {
+	seen := map[int32]string{}
+	for _, d := range m.sys.DB.Docs(schema.CollectionNameCollections) {
+		name, _ := getS(d, "_id")
+		n, _ := getV(d, "num").(int32)
+		if other, ok := seen[n]; ok {
+			return viol("C17:collection-number-reused", "collections %q and %q share number %d", other, name, n)
+		}
+		seen[n] = name
+	}
+	return nil
+}
+
+// foreignRequest sends a request that reaches outside the client's collection.
+func (m *e2Machine) foreignRequest(c *e2client, a pt.Action) *pt.Violation {
+	d := c.dts[a.T]
+	pack := d.rep.dt.CreatePushPullPack()
+	other := ""
+	for _, coll := range m.p.Colls {
+		if coll != c.coll {
+			other = coll
+		}
+	}
+	req := model.NewPushPullMessage(0, &model.Client{CUID: c.cuid, Collection: c.coll}, pack)
+	switch a.K {
+	case "collection":
+		req.Collection = other
+	case "duid":
+		// the id of the same key's datatype in the other collection (if it exists)
+		var foreign string
+		var onum int32 = -1
+		for _, cd := range m.sys.DB.Docs(schema.CollectionNameCollections) {
+			if n, _ := getS(cd, "_id"); n == other {
+				onum, _ = getV(cd, "num").(int32)
+			}
+		}
+		for _, s := range m.readStore() {
+			if s.key == a.T && s.colNum == onum {
+				foreign = s.duid
+			}
+		}
+		if foreign == "" {
+			m.last = "foreign: nothing to aim at"
+			return nil
+		}
+		pack.DUID = foreign
+		pack.Option = uint32(a.P)
+	}
+	var resp *model.PushPullMessage
+	var err error
+	if !callWithDeadline(func() {
+		ctx, cancel := gocontext.WithCancel(gocontext.Background())
+		defer cancel()
+		b, _ := proto.Marshal(req)
+		var in model.PushPullMessage
+		proto.Unmarshal(b, &in)
+		resp, err = m.sys.Svc().ProcessPushPull(ctx, &in)
+	}) {
+		exitWith(viol("C16:request-never-answered:foreign", "foreign request %s never returned", a))
+	}
+	m.drain()
+	m.last = fmt.Sprintf("foreign %s err=%v", a.K, err != nil)
+	if resp != nil {
+		for _, pk := range resp.PushPullPacks {
+			if pk.GetPushPullPackOption().HasErrorBit() {
+				continue
+			}
+			if a.K == "duid" && len(pk.Operations) > 0 && pk.DUID == pack.DUID {
+				// operations of the foreign datatype must never be handed out
+				return viol("C17:foreign-operations-delivered", "%s: the response hands %d operations of datatype %s (collection %q) to a client of %q", a, len(pk.Operations), pk.DUID, other, c.coll)
+			}
+		}
+	}
+	if a.K == "collection" && err == nil {
+		return viol("C17:foreign-collection-accepted", "%s: a request naming collection %q by a client registered in %q was not refused", a, other, c.coll)
 	}
 	return nil
 }
